@@ -2,12 +2,18 @@
 
 props/C14/h_file.c drives the working tree's sqfs_file_open / write_at / truncate / get_size / sqfs_drop with a call sequence
 and reports after EVERY call get_size() (logical length) and stat().st_size (the file a kill would leave behind).  Expected
-values: `model_run` below, a transcription of fd_write / fd_trunc Physical / fd_close Physical (FileLenModel.v is not extracted:
-the functions are three lines each; the POSIX file itself - pwrite / truncate - is the extracted TraceModel.apply tied at every
-kill point of the sweep).  Theorem behind the comparison: Properties_C14.truncate_is_physical (logical = physical after every
-call when no empty write lies behind the cached size) and truncate_reaches_the_file."""
+values: the EXTRACTED FileLenModel (coq/Extract/ExtractC14File.v + props/C14/file_driver.ml: fd_step Physical from fd0, fop_ok,
+appendsb, fd_close Physical applied with apply_from), all sequences of a run - the harness cases and the call logs of the real
+tool runs (check.py desc_length_tie) - through ONE driver process (`ModelProc`).  Theorem behind the comparison:
+Properties_C14.truncate_is_physical (logical = physical after every call when no empty write lies behind the cached size) and
+truncate_reaches_the_file.
+
+`model_run` is a Python transcription of the same three functions; it is NOT used by the check any more, only by the selftest
+(`python3 props/C14/desc_stage.py`: driver in "full" mode = transcription on the quick-tier cases of seeds 1, 2, 3)."""
+import os
 import random
 import subprocess
+import threading
 
 
 def parse(line):
@@ -22,7 +28,7 @@ def parse(line):
 
 
 def model_run(ops):
-    """[(fd_size, length of fd_file, fops_ok so far)] after every call, and the final file"""
+    """selftest only.  [(fd_size, length of fd_file, fops_ok so far)] after every call, and the final file"""
     f = bytearray()
     size = 0
     ok = True
@@ -102,23 +108,122 @@ def gen_cases(seed, tier):
     return cases
 
 
-def run(harness, scratch_file, cases):
-    """-> (list of problems (kind, text, line), stats)"""
+def trace_line(calls):
+    """the logged output calls of a real run [("W", off, len) | ("T", n, 0) | ("X", 0, 0)] as a sequence for the model: the
+    bytes do not matter for the lengths (pattern with seed 0); an unmodelled call is the empty write at 0 (changes nothing)"""
+    out = []
+    for c in calls:
+        if c[0] == "W":
+            out.append("w%d:%d:0" % (c[1], c[2]))
+        elif c[0] == "T":
+            out.append("t%d" % c[1])
+        else:
+            out.append("w0:0:0")
+    return " ".join(out)
+
+
+def parse_model_line(got):
+    """one output line of props/C14/file_driver.ml -> dict(steps=[(fd_size, flen fd_file, fops_ok so far, appendsb of the step)],
+    before=, after=, hash=, extra=[fops_ok, agree] in full mode) or None"""
+    try:
+        head, tail = got.split(" | ")
+        assert head.split()[0] == "M"
+        steps = [tuple(int(x) for x in t.split(",")) for t in head.split()[1:]]
+        assert all(len(t) == 4 for t in steps)
+        tt = tail.split()
+        return dict(steps=steps, before=int(tt[0]), after=int(tt[1]), hash=tt[2], extra=[int(x) for x in tt[3:]])
+    except (ValueError, AssertionError, IndexError):
+        return None
+
+
+class ModelProc:
+    """ONE process of the extracted FileLenModel for all call sequences of a run.  Sequences are handed over as they become
+    known (`submit`, thread safe; the driver answers line by line), so the model works while the real tools still run;
+    `finish` closes the input and returns everything.  (The extracted list functions are not tail recursive and the file is
+    a list of N: a 180 kB image with 110 calls costs seconds, which this way are not added to the run time.)"""
+
+    def __init__(self, driver, preexec=None, full=False):
+        env = dict(os.environ)
+        env.setdefault("OCAMLRUNPARAM", "s=8M")      # deep recursion: every minor collection scans the whole stack
+        self.p = subprocess.Popen([driver] + (["full"] if full else []), stdin=subprocess.PIPE, stdout=subprocess.PIPE,
+                                  stderr=subprocess.PIPE, preexec_fn=preexec, env=env)
+        self.lock = threading.Lock()
+        self.n = 0
+        self.out = []
+        self.t = threading.Thread(target=self._read, daemon=True)
+        self.t.start()
+
+    def _read(self):
+        for ln in self.p.stdout:
+            self.out.append(ln.decode("utf-8", "replace").rstrip("\n"))
+
+    def submit(self, line):
+        """-> index of the sequence in the result of finish()"""
+        with self.lock:
+            try:
+                self.p.stdin.write(((line if line.strip() else "w0:0:0") + "\n").encode())
+                self.p.stdin.flush()
+            except (OSError, ValueError):
+                pass                                  # the driver died: finish() reports it
+            self.n += 1
+            return self.n - 1
+
+    def finish(self, timeout=600):
+        """-> (one entry per submitted sequence: parse_model_line or None, error text or None)"""
+        try:
+            self.p.stdin.close()
+        except OSError:
+            pass
+        self.t.join(timeout)
+        err = None
+        if self.t.is_alive():
+            self.p.kill()
+            self.t.join(10)
+            err = "descriptor model driver timed out"
+        rc = self.p.wait()
+        if err is None and rc != 0:
+            err = "descriptor model driver rc=%d %s" % (rc, self.p.stderr.read().decode("utf-8", "replace")[-300:])
+        self.p.stderr.close()
+        return [parse_model_line(self.out[i]) if i < len(self.out) else None for i in range(self.n)], err
+
+
+def model_batch(driver, lines, preexec=None, full=False, timeout=600):
+    """the extracted FileLenModel on every sequence of `lines`, one driver process -> as ModelProc.finish"""
+    mp = ModelProc(driver, preexec=preexec, full=full)
+    for l in lines:
+        mp.submit(l)
+    return mp.finish(timeout)
+
+
+def run_harness(harness, scratch_file, cases):
+    """the real descriptor on every case -> (output lines, error text or None)"""
     data = ("\n".join(cases) + "\n").encode()
     try:
         r = subprocess.run([harness, scratch_file], input=data, stdout=subprocess.PIPE, stderr=subprocess.PIPE, timeout=300)
     except subprocess.TimeoutExpired:
-        return [("machinery", "descriptor harness timed out", cases[0])], {}
-    lines = r.stdout.decode().split("\n")
+        return [], "descriptor harness timed out"
+    err = None
+    if r.returncode != 0:
+        err = "descriptor harness rc=%d %s" % (r.returncode, r.stderr.decode("utf-8", "replace")[-300:])
+    return r.stdout.decode().split("\n"), err
+
+
+def compare(cases, lines, herr, models, merr):
+    """harness output vs extracted model -> (list of problems (kind, text, line), stats)"""
     bad = []
     st = dict(cases=0, calls=0, truncations=0, shrinks=0, invariant_points=0, outside_fops_ok=0)
-    if r.returncode != 0:
-        bad.append(("machinery", "descriptor harness rc=%d %s" % (r.returncode, r.stderr.decode("utf-8", "replace")[-300:]), cases[0]))
+    for e in (herr, merr):
+        if e:
+            bad.append(("machinery", e, cases[0]))
     for i, line in enumerate(cases):
         got = lines[i] if i < len(lines) else "<missing>"
         ops = parse(line)
-        exp, final = model_run(ops)
+        mod = models[i] if i < len(models) else None
         st["cases"] += 1
+        if mod is None or len(mod["steps"]) != len(ops):
+            bad.append(("machinery", "no / unparsable line of the extracted model (props/C14/file_driver.ml)", line))
+            continue
+        exp = mod["steps"]
         try:
             head, tail = got.split(" | ")
             toks = head.split()[1:]
@@ -128,7 +233,7 @@ def run(harness, scratch_file, cases):
             bad.append(("machinery", "unparsable harness line %r" % got[:200], line))
             continue
         prev_len = 0
-        for j, (tok, (msize, mlen, ok)) in enumerate(zip(toks, exp)):
+        for j, (tok, (msize, mlen, ok, _app)) in enumerate(zip(toks, exp)):
             rc, gs, ss = (int(x) for x in tok.split(","))
             st["calls"] += 1
             if ops[j][0] == "t":
@@ -155,7 +260,33 @@ def run(harness, scratch_file, cases):
                 st["outside_fops_ok"] += 1
             prev_len = mlen
         else:
-            if int(before) != len(final) or int(after) != len(final) or h != fnv(final):
-                bad.append(("close", "file before / after sqfs_drop: %s / %s bytes, fnv %s; model %d bytes, fnv %s"
-                            % (before, after, h, len(final), fnv(final)), line))
+            if int(before) != mod["before"] or int(after) != mod["after"] or h != mod["hash"]:
+                bad.append(("close", "file before / after sqfs_drop: %s / %s bytes, hash %s; model %d / %d bytes, hash %s"
+                            % (before, after, h, mod["before"], mod["after"], mod["hash"]), line))
     return bad, st
+
+
+def selftest(driver, preexec=None):
+    """the driver (full mode: also fops_ok on the whole sequence and fd_run = the steps) against the Python transcription"""
+    n = 0
+    for seed in (1, 2, 3):
+        cases = gen_cases(seed, "quick")
+        models, err = model_batch(driver, cases, preexec=preexec, full=True)
+        assert err is None, err
+        for line, mod in zip(cases, models):
+            exp, final = model_run(parse(line))
+            assert mod is not None, line
+            assert [(a, b, int(c)) for a, b, c in exp] == [t[:3] for t in mod["steps"]], line
+            assert (mod["before"], mod["after"], mod["hash"]) == (len(final), len(final), fnv(final)), line
+            assert mod["extra"] == [int(exp[-1][2]), 1], line
+            n += 1
+    return n
+
+
+if __name__ == "__main__":
+    import sys
+    sys.path.insert(0, os.path.join(os.path.dirname(os.path.abspath(__file__)), "..", ".."))
+    from vlib import core
+    here = os.path.dirname(os.path.abspath(__file__))
+    drv = core.build_model_driver("C14file", "ExtractC14File.v", os.path.join(here, "file_driver.ml"))
+    print("selftest ok: %d sequences, extracted FileLenModel = transcription" % selftest(drv))
